@@ -30,30 +30,44 @@ def _env():
     return env
 
 
-def build(crate, log_dir):
+def build(crate, log_dir, features=()):
     """compile the harness crate once (codegen for all harnesses) so that per-harness runs only verify"""
     d = prepare(crate)
     tdir = os.path.join(WORK, "kani-" + crate)
     t0 = time.time()
-    p = subprocess.run(["cargo", "kani", "--only-codegen", "--target-dir", tdir, "-Z", "stubbing", "-Z", "concrete-playback"],
-                       cwd=d, env=_env(), capture_output=True, text=True)
+    cmd = ["cargo", "kani", "--only-codegen", "--target-dir", tdir, "-Z", "stubbing"]
+    if features:
+        cmd += ["--features", ",".join(features)]
+    p = subprocess.run(cmd, cwd=d, env=_env(), capture_output=True, text=True)
     open(os.path.join(log_dir, f"kani-build-{crate}.log"), "w").write(p.stdout + p.stderr)
     return p.returncode == 0, time.time() - t0, (p.stdout + p.stderr)[-3000:]
 
 
-def run_harness(crate, harness, timeout_s, log_dir, mem_gb=12, extra=()):
+def run_harness(crate, harness, timeout_s, log_dir, mem_gb=12, extra=(), playback=False, want_playback=True, features=()):
+    """first pass without concrete playback (measured: the playback option makes CBMC runs ~7x slower); a failed
+    harness is re-run once with playback to obtain the concrete counterexample as a unit test"""
     d = os.path.join(VERIF, "kani", crate)
     tdir = os.path.join(WORK, "kani-" + crate)
     log = os.path.join(log_dir, f"kani-{crate}-{harness}.log")
-    cmd = ["cargo", "kani", "--harness", harness, "--target-dir", tdir, "-Z", "stubbing", "-Z", "concrete-playback",
-           "--concrete-playback=print"] + list(extra)
+    cmd = ["cargo", "kani", "--harness", harness, "--target-dir", tdir, "-Z", "stubbing"] + list(extra)
+    if features:
+        cmd += ["--features", ",".join(features)]
+    if playback:
+        cmd += ["-Z", "concrete-playback", "--concrete-playback=print"]
+        log = log[:-4] + "-playback.log"
     shell = f"ulimit -v {mem_gb * 1024 * 1024}; exec timeout -k 5 {int(timeout_s)} " + " ".join(cmd)
     t0 = time.time()
     p = subprocess.run(["bash", "-c", shell], cwd=d, env=_env(), capture_output=True, text=True)
     dt = time.time() - t0
     out = p.stdout + p.stderr
     open(log, "w").write(out)
-    return parse(out, p.returncode, dt, harness, log)
+    r = parse(out, p.returncode, dt, harness, log)
+    if r["verdict"] == "failed" and not playback and want_playback:
+        r2 = run_harness(crate, harness, timeout_s * 8, log_dir, max(mem_gb, 32), extra, playback=True, features=features)
+        if r2.get("playback"):
+            r["playback"] = r2["playback"]
+        r["playback_verdict"] = r2["verdict"]
+    return r
 
 
 def parse(out, rc, dt, harness, log):
